@@ -79,6 +79,32 @@ impl Gen {
             self.pick(&NICKS)
         }
     }
+    // a channel the given user is on (most of the time), else any
+    fn chan_for(&mut self, snap: &Value, me: &str) -> String {
+        let mine: Vec<String> = snap["users"][me]["chans"].as_array().map(|a| a.iter().filter_map(|x| x.as_str().map(|s| s.to_string())).collect()).unwrap_or_default();
+        if !mine.is_empty() && self.rng.gen_bool(0.65) {
+            mine.choose(&mut self.rng).unwrap().clone()
+        } else {
+            self.chan_pool(snap)
+        }
+    }
+    // a member of that channel (most of the time), else any nick
+    fn member_of(&mut self, snap: &Value, ch: &str) -> String {
+        let ms: Vec<String> = snap["chans"][ch]["members"].as_object().map(|o| o.keys().cloned().collect()).unwrap_or_default();
+        if !ms.is_empty() && self.rng.gen_bool(0.75) {
+            ms.choose(&mut self.rng).unwrap().clone()
+        } else {
+            self.nick_pool(snap)
+        }
+    }
+    fn free_nick(&mut self, snap: &Value) -> String {
+        let free: Vec<&str> = NICKS.iter().filter(|n| snap["users"][**n].is_null()).cloned().collect();
+        if !free.is_empty() && self.rng.gen_bool(0.8) {
+            free.choose(&mut self.rng).unwrap().to_string()
+        } else {
+            self.pick(&NICKS)
+        }
+    }
     fn chan_pool(&mut self, snap: &Value) -> String {
         let ex: Vec<String> = snap["chans"].as_object().map(|o| o.keys().cloned().collect()).unwrap_or_default();
         if !ex.is_empty() && self.rng.gen_bool(0.7) {
@@ -125,10 +151,15 @@ impl Gen {
         let has_nick = k["nick"].as_array().map(|a| !a.is_empty()).unwrap_or(false);
         let has_user = k["uname"].as_array().map(|a| !a.is_empty()).unwrap_or(false);
         let idx = CONNS.iter().position(|x| *x == c).unwrap_or(0) + 1;
+        let has_pass = k["pass"].as_array().map(|a| !a.is_empty()).unwrap_or(false);
+        let needs_pass = self.profile == "pw" || self.profile == "full";
         let r = self.rng.gen_range(0..100);
-        if r < 30 && !has_nick || r < 8 {
-            cmd("NICK", vec![vec![self.nick_pool(snap)]])
-        } else if r < 60 && !has_user || r < 14 {
+        if needs_pass && !has_pass && r < 55 {
+            let pw: String = if self.rng.gen_bool(0.85) { s("srvpass") } else { self.pick(&["userpass", "wrong"]) };
+            cmd("PASS", vec![vec![pw]])
+        } else if r < 45 && !has_nick || r < 6 {
+            cmd("NICK", vec![vec![self.free_nick(snap)]])
+        } else if r < 80 && !has_user || r < 10 {
             let un = if self.profile == "full" && self.rng.gen_bool(0.35) {
                 self.pick(&["reg1", "reg2", "reg3"])
             } else {
@@ -155,7 +186,7 @@ impl Gen {
         }
     }
 
-    fn mode_groups(&mut self, snap: &Value) -> Vec<Vec<String>> {
+    fn mode_groups(&mut self, snap: &Value, ch: &str) -> Vec<Vec<String>> {
         let ngroups = if self.rng.gen_bool(0.8) { 1 } else { 2 };
         let mut out = vec![];
         for _ in 0..ngroups {
@@ -172,7 +203,7 @@ impl Gen {
                 let l = *b"qaohvbeIklimtns".choose(&mut self.rng).unwrap() as char;
                 ms.push(l);
                 match l {
-                    'q' | 'a' | 'o' | 'h' | 'v' => args.push(self.nick_pool(snap)),
+                    'q' | 'a' | 'o' | 'h' | 'v' => args.push(self.member_of(snap, ch)),
                     'b' | 'e' | 'I' => {
                         if self.rng.gen_bool(0.8) {
                             let m = self.mask(snap);
@@ -213,7 +244,8 @@ impl Gen {
                 }
             }
             120..=169 => {
-                let chs = self.list(|g| g.chan_pool(snap));
+                let mec = me.clone();
+                let chs = self.list(|g| g.chan_for(snap, &mec));
                 if self.rng.gen_bool(0.4) {
                     cmd("PART", vec![chs, vec![self.text()]])
                 } else {
@@ -236,10 +268,10 @@ impl Gen {
                 cmd(verb, vec![tg, vec![self.text()]])
             }
             290..=409 => {
-                let ch = self.chan_pool(snap);
-                let mut p = vec![vec![ch]];
+                let ch = self.chan_for(snap, &me);
+                let mut p = vec![vec![ch.clone()]];
                 if self.rng.gen_bool(0.9) {
-                    p.extend(self.mode_groups(snap));
+                    p.extend(self.mode_groups(snap, &ch));
                 }
                 cmd("MODE", p)
             }
@@ -260,8 +292,9 @@ impl Gen {
                 cmd("MODE", p)
             }
             450..=499 => {
-                let ch = self.chan_pool(snap);
-                let us = self.list(|g| g.nick_pool(snap));
+                let ch = self.chan_for(snap, &me);
+                let chc = ch.clone();
+                let us = self.list(|g| g.member_of(snap, &chc));
                 if self.rng.gen_bool(0.5) {
                     cmd("KICK", vec![vec![ch], us, vec![self.text()]])
                 } else {
@@ -269,14 +302,14 @@ impl Gen {
                 }
             }
             500..=539 => {
-                let ch = self.chan_pool(snap);
+                let ch = self.chan_for(snap, &me);
                 if self.rng.gen_bool(0.6) {
                     cmd("TOPIC", vec![vec![ch], vec![self.text()]])
                 } else {
                     cmd("TOPIC", vec![vec![ch]])
                 }
             }
-            540..=579 => cmd("INVITE", vec![vec![self.nick_pool(snap)], vec![self.chan_pool(snap)]]),
+            540..=579 => cmd("INVITE", vec![vec![self.nick_pool(snap)], vec![self.chan_for(snap, &me)]]),
             580..=619 => {
                 if self.rng.gen_bool(0.8) {
                     cmd("NAMES", vec![self.list(|g| g.chan_pool(snap))])
@@ -317,7 +350,7 @@ impl Gen {
                     cmd("WHOWAS", vec![vec![self.pick(&NICKS)], vec![self.rng.gen_range(0..3).to_string()]])
                 }
             }
-            750..=799 => cmd("NICK", vec![vec![self.pick(&NICKS)]]),
+            750..=799 => cmd("NICK", vec![vec![self.free_nick(snap)]]),
             800..=829 => {
                 let (n, p) = match self.rng.gen_range(0..4) {
                     0 => ("god", "godpass"),
